@@ -45,6 +45,27 @@ type genObs struct {
 	Timeout  bool   `json:"timeout"`
 	NSwitch  int    `json:"nswitch"` // occurrences of a generated rune switch (non-vacuity of -switch scenarios)
 	NInline  int    `json:"nnil"`    // nil entries in the rule table (inlined or unused rules)
+	Diags    [][2]string `json:"diags"` // diagnostics found on stderr: kind, rule
+}
+
+var diagRes = []struct {
+	kind string
+	re   *regexp.Regexp
+}{
+	{"undefined", regexp.MustCompile(`rule '([^']*)' used but not defined`)},
+	{"unused", regexp.MustCompile(`rule '([^']*)' defined but not used`)},
+	{"leftrec", regexp.MustCompile(`possible infinite left recursion in rule '([^']*)'`)},
+	{"duplicate", regexp.MustCompile(`rule '([^']*)' defined more than once`)},
+}
+
+func parseDiags(stderr string) [][2]string {
+	out := [][2]string{}
+	for _, d := range diagRes {
+		for _, m := range d.re.FindAllStringSubmatch(stderr, -1) {
+			out = append(out, [2]string{d.kind, m[1]})
+		}
+	}
+	return out
 }
 
 type unit struct {
@@ -68,6 +89,9 @@ func optFlags(opt string) []string {
 	}
 	if strings.Contains(opt, "n") {
 		f = append(f, "-noast")
+	}
+	if strings.Contains(opt, "t") {
+		f = append(f, "-strict")
 	}
 	return f
 }
@@ -197,6 +221,7 @@ func corpusMain(args []string) error {
 			}
 		}
 		u.gen.Stderr = trunc(stderr.String(), 2000)
+		u.gen.Diags = parseDiags(stderr.String())
 		src, rerr := os.ReadFile(filepath.Join(u.dir, "g.go"))
 		u.gen.HasOut = rerr == nil && len(src) > 0
 		if u.gen.HasOut {
